@@ -114,8 +114,11 @@ class SameNodeHistories:
         viols, label = [], "init"
         for n, op in enumerate(hist):
             if op[0] == "ckd":
-                f = lambda node: [hdscen.canon_impl_node(node.ckd(op[1]))]
-                exp = [hdscen.canon_ref_node(hd.derive(refp, [op[1]]))]
+                def f(node):
+                    ch = node.ckd(op[1])
+                    return [hdscen.canon_impl_node(ch), ch.extended_public_key(), bytes(ch.fingerprint()).hex()]
+                rc = hd.derive(refp, [op[1]])
+                exp = [hdscen.canon_ref_node(rc), hd.xpub(rc), hd.fingerprint(rc.K).hex()]
             elif op[0] == "children":
                 f = lambda node: [hdscen.canon_impl_node(c) for c in node.generate_children((op[1], op[2]))]
                 exp = [hdscen.canon_ref_node(hd.derive(refp, [i])) for i in range(op[1], op[2])]
@@ -127,7 +130,8 @@ class SameNodeHistories:
             if n == len(hist) - 1:
                 if a[0] != "ok" or a[1] != exp:
                     viols.append(V(P + ":same-node-history:public:wrong-node", "after %r on the same public node, %r gives %r" % (hist[:-1], op, str(a[1])[:120]), None, exp))
-                if b[0] != "ok" or [x[2:] for x in b[1]] != [x[2:] for x in exp]:
+                if b[0] != "ok" or [x[2:] for x in b[1] if isinstance(x, list)] != [x[2:] for x in exp if isinstance(x, list)] or \
+                        [x for x in b[1] if isinstance(x, str)] != [x for x in exp if isinstance(x, str)]:
                     viols.append(V(P + ":same-node-history:private:wrong-node", "after %r on the same private node, %r differs from the reference" % (hist[:-1], op)))
                 label = "violation" if viols else "child-ok"
         return {"canon": hist, "viols": viols, "label": label}
@@ -198,7 +202,7 @@ def execute(case):
         o, nt, vs = chk_refusal(case["root"], case["form"], case["arg"])
     elif "hist" in case and "model" not in case and k is None:
         from ..core import isolated
-        model = SameNodeHistories() if case.get("layer") == "same-node-histories" else CrossRootHistories()
+        model = SameNodeHistories() if case.get("layer", "").startswith("same-node-histories") else CrossRootHistories()
         r = isolated(model.run, case["hist"])
         o, nt, vs = r["label"], True, r["viols"]
         for v in vs:
@@ -246,6 +250,11 @@ def run(ctx):
             smp["model"] = {"root": roots[int(smp["layer"].replace("pair-tree-root", ""))], "alphabet": alpha}
     bfs(ctx, "cross-root-histories", CrossRootHistories(), 3 if ctx.thorough else 2)
     bfs(ctx, "same-node-histories", SameNodeHistories(), 3 if ctx.thorough else 2)
+    from ..bfs import long_histories
+    long_histories(ctx, "same-node-histories+long", SameNodeHistories(), rotations=6 if ctx.thorough else 3, rounds=3)
+    from ..bfs import eviction_probe
+    eviction_probe(ctx, "same-node-histories+revisits", SameNodeHistories(), lambda i: ["ckd", i], sizes=(1, 2, 3, 4, 5, 8, 9, 16, 17, 20, 21, 32, 33))
+    long_histories(ctx, "cross-root-histories+long", CrossRootHistories(), rotations=5 if ctx.thorough else 3, rounds=2)
     corners = [("il", 1), ("il", 2), ("kpar", 0), ("il", N - 1), ("child", N - 1), ("child", 1), ("il", 2**255), ("child", 2), ("il", N - 2)]
     cases = [{"k": "corner", "root": root, "i": i, "il": list(c)} for root in roots for i in (0, H - 1, alpha[3]) for c in corners]
     ctx.product("prf-corners", cases, execute)
